@@ -1,6 +1,6 @@
 (* C17 driver:
    (case ID (opts REAL STATE QUERY PQUERY GROUP COLLAPSE SORT HEAD TAIL) (posts POST...))
-     QUERY (account pattern), PQUERY (payee pattern) = hex | "-"; GROUP = none|sub|payee|dow; COLLAPSE = depth | "-";
+     QUERY (account pattern), PQUERY (payee pattern) = hex | "-"; GROUP = none|sub|payee|dow|payee+sub|dow+sub; COLLAPSE = depth | "-";
      SORT = "-" | ((INV KEY)...) with KEY = date|payee|account|amount; HEAD, TAIL = int | "-"
      POST = (XID DATE PAYEEHEX XPAYEEHEX ACCTHEX VIRT STATE NUM DEN PREC SYMHEX)
             PAYEE = post_t::payee() of the posting, XPAYEE = the payee of its transaction
@@ -53,7 +53,8 @@ let handle line =
               f_query = (if atom q = "-" then None else Some (str_of_hex (atom q)));
               f_payee = (if atom pq = "-" then None else Some (str_of_hex (atom pq))) } in
     let g = (match grp with "none" -> GNone | "sub" -> GSubtotal | "payee" -> GByPayee
-                          | "dow" -> GDow | _ -> failwith "group") in
+                          | "dow" -> GDow | "payee+sub" -> GByPayeeSub | "dow+sub" -> GDowSub
+                          | _ -> failwith "group") in
     let s = (match srt with
         | A "-" -> None
         | L ks -> Some (List.map (function L [inv; A k] -> (batom inv, key_of k) | _ -> failwith "sortkey") ks)
